@@ -49,14 +49,14 @@ def dense_hor(f):
     return m
 
 
-def h_ct(f, ns, ext, same=False):
+def h_ct(f, ns, ext, same=False, grids=None):
     f = T(f)
     vs = sorted(variables(f))
     h = dense_hor(f)
 
     def body(env):
         A = env.A
-        full = {v: ct.signal(env, v, n + e, 'zero') for v, n, e in zip(vs, ns, ext)}
+        full = {v: ct.signal(env, v, n + e, 'zero', grid=(grids[k] if grids else None)) for k, (v, n, e) in enumerate(zip(vs, ns, ext))}
         short = {v: full[v][:n] for v, n in zip(vs, ns)}
         s1 = ct.make_spec('offline~', 'out = ' + text(f), vs)
         s2 = s1 if same else ct.make_spec('offline~', 'out = ' + text(f), vs)
@@ -126,6 +126,15 @@ def obligations(tier, rng):
                 two = len(variables(f)) > 1
                 out.append(ob('C16', 'ct', 'ct/nested-past/%s' % text(f), f=f, ns=[2, 2] if two else [3], ext=[1, 1] if two else [1],
                               max_paths=60000, wall=(300 if quick else 1500)))
+    # bounded until/since with a > 0 and windows over several samples: concrete (unaligned) time grids, symbolic values; the extension brings
+    # values after the end of w1 that a look beyond t+b would pick up
+    for f in [('until_t', X, Y, 1, 3), ('until_t', X, Y, 1, 2), ('unless_t', X, Y, 1, 2), ('since_t', X, Y, 1, 2), ('eventually_t', ('and', X, Y), 1, 2)]:
+        # few samples, long segments: w1 ends at 8, the extension brings samples at 10 and 12
+        for gi, (gx, nx, gy, ny) in enumerate([([0, 8, 10], 2, [0, 1, 8, 10, 12], 3), ([0, 2, 8, 10, 12], 3, [0, 8, 11], 2)]):
+            if quick and not (f[0] == 'until_t' and (gi, f[4]) in ((0, 3), (1, 2))) and f[0] != 'eventually_t':
+                continue            # 1-3 minutes each: two in the quick tier, all in the thorough tier
+            out.append(ob('C16', 'ct', 'ct/grid%d/%s/n=[%d, %d]+[%d, %d]' % (gi, text(f), nx, ny, len(gx) - nx, len(gy) - ny), f=f, ns=[nx, ny],
+                          ext=[len(gx) - nx, len(gy) - ny], grids=[gx, gy], max_paths=60000, wall=(600 if quick else 1500)))
     # bounds written with units (the horizon is a duration, whatever the notation)
     for txt, f in [('(x) unless[2000ms,4000] (y)', ('unless_t', X, Y, 2, 4)), ('(x) unless[1,2s] (y)', ('unless_t', X, Y, 1, 2)), ('(x) until[1s,2000ms] (y)', ('until_t', X, Y, 1, 2)),
                    ('eventually[1000ms,2000](x)', ('eventually_t', X, 1, 2)), ('always[0ms,2000](once[1s,1000ms](x))', ('always_t', ('once_t', X, 1, 1), 0, 2))]:
